@@ -148,7 +148,7 @@ static LAST_PANIC: std::sync::Mutex<Option<String>> = std::sync::Mutex::new(None
 /// Runs one scenario as its own task so that a panic inside the adapter is an observation
 /// (a violation of "never panics"), not the end of the conformance run.
 async fn guarded(out: &mut Out, what: String, fut: impl std::future::Future<Output = Out> + Send + 'static) {
-    match tokio::time::timeout(Duration::from_secs(40), tokio::spawn(fut)).await {
+    match tokio::time::timeout(Duration::from_secs(150), tokio::spawn(fut)).await {
         Ok(Ok(o)) => out.merge(o),
         Ok(Err(e)) => {
             out.runs += 1;
@@ -157,7 +157,7 @@ async fn guarded(out: &mut Out, what: String, fut: impl std::future::Future<Outp
             out.viol(&format!("C17:real:panic@{loc}"), format!("{what}: {p}"));
         }
         Err(_) => {
-            eprintln!("MACHINERY-FAILURE: real-Quinn scenario did not finish within 40 s: {what} (not a verdict)");
+            eprintln!("MACHINERY-FAILURE: real-Quinn scenario did not finish within 150 s: {what} (not a verdict)");
             std::process::exit(2);
         }
     }
@@ -528,9 +528,9 @@ async fn s_facts(c: Arc<Certs>) -> Out {
     let again = r2.read_chunk(usize::MAX, true).await;
     out.fact("read_chunk after FIN -> Ok(None) again", all == b"ab" && matches!(again, Ok(None)), format!("{again:?}"));
     // (4) the stopped writer sees Stopped(code)
-    tokio::time::sleep(Duration::from_millis(50)).await;
-    let r = poll_fn(|cx| Poll::Ready(std::pin::Pin::new(&mut s).poll_write(cx, &buf))).await;
-    out.fact("poll_write after the peer's stop(7) -> Stopped(7)", matches!(&r, Poll::Ready(Err(quinn::WriteError::Stopped(c))) if c.into_inner() == 7), format!("{r:?}"));
+    // (the window is exhausted: the write waits until the STOP_SENDING arrives - no fixed delay to depend on)
+    let r = tokio::time::timeout(Duration::from_secs(20), s.write(&buf)).await;
+    out.fact("write after the peer's stop(7) -> Stopped(7)", matches!(&r, Ok(Err(quinn::WriteError::Stopped(c))) if c.into_inner() == 7), format!("{r:?}"));
     // (5) reset(code) then the peer's read -> Reset(code)
     let mut s3 = p.client.open_uni().await.unwrap();
     s3.write_all(b"q").await.unwrap();
@@ -597,7 +597,7 @@ async fn s_stop_then_finish(c: Arc<Certs>, grease: bool) -> Out {
     let mut driver_end = String::new();
     let mut n = 0;
     loop {
-        match tokio::time::timeout(Duration::from_millis(1500), h3c.accept()).await {
+        match tokio::time::timeout(Duration::from_secs(15), h3c.accept()).await {
             Ok(Ok(Some(resolver))) => {
                 n += 1;
                 let is_first = n == 1;
@@ -692,7 +692,7 @@ async fn s_reset_then_read_again(c: Arc<Certs>) -> Out {
     let mut driver_end = String::new();
     let mut n = 0;
     loop {
-        match tokio::time::timeout(Duration::from_millis(1500), h3c.accept()).await {
+        match tokio::time::timeout(Duration::from_secs(15), h3c.accept()).await {
             Ok(Ok(Some(resolver))) => {
                 n += 1;
                 let is_first = n == 1;
@@ -827,7 +827,7 @@ async fn run_all(thorough: bool) -> Out {
 
 fn main() {
     let thorough = std::env::args().nth(1).as_deref() == Some("thorough");
-    let budget = Duration::from_secs(if thorough { 600 } else { 60 });
+    let budget = Duration::from_secs(if thorough { 1200 } else { 400 });
     std::panic::set_hook(Box::new(|info| {
         let msg = info.payload().downcast_ref::<&str>().map(|s| s.to_string()).or_else(|| info.payload().downcast_ref::<String>().cloned()).unwrap_or_default();
         let loc = info.location().map(|l| format!("{}:{}", l.file(), l.line())).unwrap_or_default();
